@@ -200,6 +200,8 @@ func sxOpt(fr *frame, args []value) value {
 		} else {
 			ps.floatMode = 0
 		}
+	case "stub-tax-hash":
+		ps.stubTaxHash = on
 	case "no-ifconv":
 		ps.noIfConv = on
 	case "numcpu-sym":
